@@ -199,9 +199,9 @@ func od2Eval(fn *ssa.Function, env od2Env) (res od2Val, ok bool, why string) {
 
 type od2Spec struct {
 	name   string
-	nNum   int                                       // numeric parameters (the first nNum)
-	comp   bool                                      // last parameter is a comparator
-	domain func(a []int64) bool                      // restriction of the specification's domain (nil = all)
+	nNum   int                                             // numeric parameters (the first nNum)
+	comp   bool                                            // last parameter is a comparator
+	domain func(a []int64) bool                            // restriction of the specification's domain (nil = all)
 	want   func(a []int64, c func(x, y int64) bool) od2Val // specification
 }
 
